@@ -17,6 +17,24 @@ that may be unbound (assigned only inside a loop / one branch) is carried as an 
 (NameError).  Prints / logging / timing are dropped (only statements that assign nothing but declared drop-variables).
 Everything else ABORTS the unit (fail-closed): unknown statement / expression kinds, undeclared variables, undeclared calls,
 aliasing assignments between mutable objects, anchors that are missing or ambiguous.
+
+Wave 5 additions (all behind per-unit spec flags; the wave-4 units regenerate byte-identical):
+  zarith          integers as Z (+ - * comparisons min max, `c ** c` constants, int()); `ceil(a / b)` and `a / b` on ints are opaque
+                  kernels guarded by ZeroDivisionError = None (Model/W4SPreludeZ.v sk_ceildiv / sk_fdiv)
+  enums / dataclasses   `class E(Enum)` and `@dataclass class C` are READ FROM THE SOURCE and emitted in front of the Section
+                  (Inductive E, E_eqb, Record C); members must have distinct int values, fields must be `name: int`
+  dyn C           dynamically typed arguments (None | int | C object | anything else = Model/W4SPreludeZ.v sk_dyn): `is None`,
+                  isinstance(x, int), isinstance(x, C), attribute read / numeric use through sk_obj / sk_int (AttributeError / TypeError = None)
+  callee_names    `partial(f, kw=..)`: the callee name is part of the kernel key
+  generated       calls of sibling generated functions (statement or assignment form), option result, world threaded
+  check_signature the parameter names (and defaults) of the translated function must be the ones the unit declares
+  annassign       `x: T = e` is `x = e`
+  join_raise      `raise` / `assert` under an `if` join through the option (`match (if c then None else Some ..) with`), no duplication of the
+                  rest; `return` under an `if` leaves the function; general `if x is None: A else: B` on optional parameters
+  templates       opaque_expr entries with "template" and no kernel are TRUSTED rewritings (np.arange(d) = seq 0 d, np.zeros((d,), dtype=int)
+                  = repeat 0 d, [np.empty(1)] * d = repeat c d, parse_one_d(x) = x on int sequences)
+Units: GenSampler (GCPSampler.__init__ + _prepare_function_sampler + _prepare_gradient_sampler), GenHosvdFull (whole hosvd),
+GenCpAlsPre (prologue of cp_als), GenGcpOpt (gcp_opt + _get_initial_guess).
 """
 import ast
 import json
@@ -24,7 +42,7 @@ import os
 import re
 import sys
 
-UNITS = ["GenSolver", "GenHosvd", "GenCpAls", "GenTuckerAls", "GenCpAprMu", "GenSampler", "GenHosvdFull", "GenCpAlsPre"]
+UNITS = ["GenSolver", "GenHosvd", "GenCpAls", "GenTuckerAls", "GenCpAprMu", "GenSampler", "GenHosvdFull", "GenCpAlsPre", "GenGcpOpt"]
 
 
 class Abort(Exception):
@@ -807,8 +825,8 @@ class Skel:
                 raise Abort(f"assert on non-boolean `{ast.unparse(s.test)}`")
             return self.guard(g, f"if {c}\nthen\n{ind(cont(self.after(env, g)))}\nelse None")
         if isinstance(s, ast.Return):
-            if rest and any(not self.droppable(x) for x in rest):
-                raise Abort("statements after return")
+            if rest and any(not self.droppable(x) for x in rest) and not self.spec.get("join_raise"):
+                raise Abort("statements after return")          # (join_raise units: a return inside an `if` leaves the function)
             return self.ret(s, env)
         raise Abort(f"unsupported statement {type(s).__name__} at line {getattr(s, 'lineno', '?')}")
 
@@ -849,6 +867,26 @@ class Skel:
         if txt in self.opaque_stmt:
             return self.opaque(s, txt, env, cont)
         val = s.value
+        kg = self.kernel_of(val) if isinstance(val, ast.Call) else None
+        if kg is not None and kg.get("generated"):
+            if val.keywords or len(s.targets) != 1:
+                raise Abort(f"unsupported call of a generated function `{txt[:80]}`")
+            tgs = s.targets[0].elts if isinstance(s.targets[0], (ast.Tuple, ast.List)) else [s.targets[0]]
+            names = [self.varname(t) for t in tgs]
+            if any(n is None for n in names) or len(names) != kg.get("nret", 1):
+                raise Abort(f"targets of `{txt[:80]}`")
+            for n in names:
+                self.vtype(n)
+            args = self.kernel_args(val, kg, env, g)
+            extra = list(names)
+            pats = [cname(n) for n in names]
+            if kg.get("effect"):
+                args = [self.read_var(W, env, g)] + args
+                pats.append("v_w")
+                extra.append(W)
+            pat = pats[0] if len(pats) == 1 else "(" + ", ".join(pats) + ")"
+            body = cont(self.after(env, g, extra))
+            return self.guard(g, f"match {' '.join([kg['generated']] + args)} with\n| None => None\n| Some {pat} =>\n{ind(body)}\nend")
         # aliasing of mutable objects
         vv = self.varname(val) if isinstance(val, (ast.Name, ast.Attribute)) else None
         if vv is not None and self.vtype(vv) in self.mutable:
@@ -965,11 +1003,12 @@ class Skel:
                 names.append(v)
         if isinstance(s, ast.Assign):
             # variables read by the targets (index expressions, partially updated containers)
-            for t in s.targets:
-                for n in ast.walk(t):
-                    v = self.varname(n) if isinstance(n, (ast.Name, ast.Attribute)) else None
-                    if v is not None and v in self.vars and v not in names and not (self.varname(t) == v):
-                        names.append(v)
+            for t0 in s.targets:
+                for t in (t0.elts if isinstance(t0, (ast.Tuple, ast.List)) else [t0]):
+                    for n in ast.walk(t):
+                        v = self.varname(n) if isinstance(n, (ast.Name, ast.Attribute)) else None
+                        if v is not None and v in self.vars and v not in names and not (self.varname(t) == v):
+                            names.append(v)
         names.sort(key=lambda v: name_pos(txt, v))
         names = [v for v in names if v not in k.get("ignore", [])]
         self.use_kernel(k["coq"], k["type"])
@@ -1869,7 +1908,77 @@ CPALSPRE = {
     }],
 }
 
-SPECS = [SOLVER, HOSVD, CPALS, TUCKER, CPAPR, SAMPLER, HOSVDFULL, CPALSPRE]
+# ---- gcp_opt.py::gcp_opt (whole driver) + _get_initial_guess ------------------------------------------------------------------------
+_GCP_COMMON = {
+    "file": "pyttb/gcp_opt.py", "check_signature": True, "join_raise": True,
+    "types": ["T_W", "T_Data", "T_Obj", "T_Opt", "T_K", "T_Mask", "T_SamplerArg", "T_FH", "T_LB", "T_Info", "T_Mat"],
+}
+_GCP_VARS = {"data": "T_Data", "rank": "nat", "objective": "T_Obj", "optimizer": "T_Opt", "init": "T_K", "mask": "T_Mask", "sampler": "T_SamplerArg",
+             "printitn": "nat", "function_handle": "T_FH", "gradient_handle": "T_FH", "lower_bound": "T_LB", "M0": "T_K", "result": "T_K",
+             "info": "T_Info", "factor_matrices": "list T_Mat", "n": "nat"}
+GCPOPT = {
+    "name": "GenGcpOpt",
+    "functions": [
+        dict(_GCP_COMMON, name="get_initial_guess", func="_get_initial_guess",
+             params=[("$w", "T_W"), ("data", "T_Data"), ("rank", "nat"), ("init", "T_K")], vars=_GCP_VARS,
+             kernels={"ttb.ktensor": {"coq": "k_ktensor_of", "type": "T_K -> T_K", "ret": "T_K"}},
+             opaque_expr={
+                 "isinstance(init, Sequence)": {"coq": "k_init_is_sequence", "type": "T_K -> bool", "ret": "bool"},
+                 "isinstance(init, str)": {"coq": "k_init_is_str", "type": "T_K -> bool", "ret": "bool"},
+                 "isinstance(init, ttb.ktensor)": {"coq": "k_init_is_ktensor", "type": "T_K -> bool", "ret": "bool"},
+                 "init.shape != data.shape": {"coq": "k_init_shape_differs", "type": "T_K -> T_Data -> bool", "ret": "bool"},
+                 "init.ncomponents != rank": {"coq": "k_init_ncomp_differs", "type": "T_K -> nat -> bool", "ret": "bool"},
+                 "init == 'random'": {"coq": "k_init_is_random", "type": "T_K -> bool", "ret": "bool"},
+                 "data.ndims": {"coq": "k_ndims", "type": "T_Data -> nat", "ret": "nat"},
+                 "ttb.ktensor(factor_matrices)": {"coq": "k_ktensor_of_factors", "type": "list T_Mat -> T_K", "ret": "T_K"},
+             },
+             opaque_stmt={
+                 "init.normalize('all')": {"coq": "k_normalize_all", "type": "T_K -> T_K", "targets": ["init"]},
+                 "M0.normalize('all')": {"coq": "k_normalize_all", "type": "T_K -> T_K", "targets": ["M0"]},
+                 "M0 *= data.norm() / M0.norm()": {"coq": "k_scale_to_data", "type": "T_K -> T_Data -> T_K", "targets": ["M0"]},
+                 "factor_matrices.append(np.random.uniform(0, 1, (data.shape[n], rank)))":
+                     {"coq": "k_append_random_factor", "type": "T_W -> list T_Mat -> T_Data -> nat -> nat -> T_W * list T_Mat",
+                      "targets": ["factor_matrices"], "effect": True},
+             }),
+        dict(_GCP_COMMON, name="gcp_opt", func="gcp_opt",
+             defaults=["'random'", "None", "None", "1"],
+             params=[("$w", "T_W"), ("data", "T_Data"), ("rank", "nat"), ("objective", "T_Obj"), ("optimizer", "T_Opt"), ("init", "T_K"),
+                     ("mask", "T_Mask"), ("sampler", "T_SamplerArg"), ("printitn", "nat")],
+             vars=_GCP_VARS,
+             drop_vars=["tensor_size", "nmissing", "optimizer_name", "objective_name", "welcome_msg", "main_start"],
+             kernels={
+                 "setup": {"coq": "k_setup", "type": "T_Obj -> T_Data -> T_FH * T_FH * T_LB"},
+                 "_get_initial_guess": {"generated": "get_initial_guess", "effect": True, "nret": 1},
+             },
+             opaque_expr={
+                 "isinstance(objective, Objectives)": {"coq": "k_objective_is_enum", "type": "T_Obj -> bool", "ret": "bool"},
+                 "len(objective)": {"coq": "k_objective_len", "type": "T_Obj -> nat", "ret": "nat"},
+                 "isinstance(data, (ttb.tensor, ttb.sptensor))": {"coq": "k_data_supported", "type": "T_Data -> bool", "ret": "bool"},
+                 "isinstance(data, ttb.tensor)": {"coq": "k_data_is_dense", "type": "T_Data -> bool", "ret": "bool"},
+                 "isinstance(data, ttb.sptensor)": {"coq": "k_data_is_sparse", "type": "T_Data -> bool", "ret": "bool"},
+                 "isinstance(mask, ttb.tensor)": {"coq": "k_mask_is_tensor", "type": "T_Mask -> bool", "ret": "bool"},
+                 "mask is not None": {"coq": "k_mask_given", "type": "T_Mask -> bool", "ret": "bool"},
+                 "isinstance(optimizer, (StochasticSolver, LBFGSB))": {"coq": "k_optimizer_supported", "type": "T_Opt -> bool", "ret": "bool"},
+                 "isinstance(optimizer, LBFGSB)": {"coq": "k_optimizer_is_lbfgsb", "type": "T_Opt -> bool", "ret": "bool"},
+                 "isinstance(optimizer, StochasticSolver)": {"coq": "k_optimizer_is_stochastic", "type": "T_Opt -> bool", "ret": "bool"},
+             },
+             opaque_stmt={
+                 "function_handle, gradient_handle, lower_bound = objective":
+                     {"coq": "k_unpack_objective", "type": "T_Obj -> T_FH * T_FH * T_LB", "targets": ["function_handle", "gradient_handle", "lower_bound"]},
+                 "data *= mask": {"coq": "k_apply_mask", "type": "T_Data -> T_Mask -> T_Data", "targets": ["data"]},
+                 "mask = mask.data": {"coq": "k_mask_data", "type": "T_Mask -> T_Mask", "targets": ["mask"]},
+                 "result, info = optimizer.solve(M0, data, function_handle, gradient_handle, lower_bound, sampler)":
+                     {"coq": "k_solve_stochastic", "type": "T_W -> T_Opt -> T_K -> T_Data -> T_FH -> T_FH -> T_LB -> T_SamplerArg -> T_W * (T_K * T_Info)",
+                      "targets": ["result", "info"], "effect": True},
+                 "result, info = optimizer.solve(M0, data, function_handle, gradient_handle, lower_bound, mask)":
+                     {"coq": "k_solve_lbfgsb", "type": "T_W -> T_Opt -> T_K -> T_Data -> T_FH -> T_FH -> T_LB -> T_Mask -> T_W * (T_K * T_Info)",
+                      "targets": ["result", "info"], "effect": True},
+                 "info['main_time'] = time.perf_counter() - main_start": {"coq": "k_set_main_time", "type": "T_Info -> T_Info", "targets": ["info"]},
+             }),
+    ],
+}
+
+SPECS = [SOLVER, HOSVD, CPALS, TUCKER, CPAPR, SAMPLER, HOSVDFULL, CPALSPRE, GCPOPT]
 
 
 def main(argv):
